@@ -750,7 +750,7 @@ class StubsStringGenerator:
                 name = type_data["name"]
 
             if types:
-                if len(types) >= 2 and name in {"Set", "List"}:
+                if len(types) >= 2 and kind in {"SetType", "ListType"}:
                     self._current_todo_msgs.add(name)
                 return f"{name}<{', '.join(types)}>"
             return f"{name}<Any>"
